@@ -6,6 +6,7 @@
 **             alpha=N (alphabet {a,b,c..} size 2..4)   maxlen=L (content bound)
 **             ulen=K (operand strings: every string of length <= K, default 2)
 **             hashop=1 ("light" mode: hash(s) is an operation, not a query of the state oracle)
+**             bytes=<hex pairs> (the alphabet, e.g. bytes=c3af or bytes=80bfff; default a,b,c,d)   filler=hi (ladder payload of high bytes)
 **             pct=1 (print_to formats containing "%%" join the alphabet); pct=2 (also %$ / show_to of the String "%" into the target)
 **             prop=C16|C12    depth=N (0 = fixpoint)
 **
@@ -28,6 +29,8 @@ static var* R;                /* stack-resident root slots */
 static int S_managed;
 
 static int A = 2, L = 5, UL = 2;
+static unsigned char ALPHA[8] = { 'a', 'b', 'c', 'd' };   /* the letters; bytes=<hex pairs> replaces them (high bytes, UTF-8 sequences) */
+static int hifill;           /* ladder: payload built from high bytes and multi-byte UTF-8 sequences */
 static int propC12;
 /* "light" mode (hashop=1): hash(s) is an explicit operation of the alphabet instead of a query of the
 ** state oracle, so that hash ; edit ; hash is a history of its own.  The state key then carries the
@@ -85,7 +88,7 @@ static void gen_strings(char (*out)[16], int* n, int maxlen, int width) {
     for (int x = 0; x < total; x++) {
       char* s = (char*)out + (size_t)(*n) * width;
       int y = x;
-      for (int i = l - 1; i >= 0; i--) { s[i] = (char)('a' + y % A); y /= A; }
+      for (int i = l - 1; i >= 0; i--) { s[i] = (char)ALPHA[y % A]; y /= A; }
       s[l] = 0;
       (*n)++;
     }
@@ -245,13 +248,20 @@ static const char* miscname[] = { "s=copy(s)", "s=assign(new String,s)", "assign
   "assign(s,NULL)", "concat(s,NULL)", "append(s,NULL)", "assign(s,Int)", "concat(s,Int)", "append(s,Int)",
   "rem(s,NULL)", "mem(s,NULL)", "rem(s,Int)", "mem(s,Int)", "get(s,0)", "set(s,len+1,\"a\")", "print_to(s,len,\"%s\") no argument" };
 
+static const char* vis(const char* s_) {
+  /* operand for display: bytes outside printable ASCII as \xNN */
+  static char b[4][64]; static int k; char* o = b[k = (k + 1) & 3]; size_t n = 0;
+  for (; *s_ && n + 6 < 64; s_++) { unsigned char c = (unsigned char)*s_; if (c >= 0x20 && c < 0x7f) o[n++] = (char)c; else n += (size_t)snprintf(o + n, 64 - n, "\\x%02x", c); }
+  o[n] = 0; return o;
+}
+
 static void opname(int op, char* buf, size_t cap) {
   if (op < 4 * NU) {
     static const char* nm[] = { "assign", "concat", "append", "rem" };
-    snprintf(buf, cap, "%s(\"%s\")", nm[op / NU], U[op % NU]); return;
+    snprintf(buf, cap, "%s(\"%s\")", nm[op / NU], vis(U[op % NU])); return;
   }
   if (op < base_print()) { snprintf(buf, cap, "resize(%d)", op - base_resize()); return; }
-  if (op < base_misc()) { int k = op - base_print(); snprintf(buf, cap, "print_to(s,%d,\"%%s\",\"%s\")", k / NU, U[k % NU]); return; }
+  if (op < base_misc()) { int k = op - base_print(); snprintf(buf, cap, "print_to(s,%d,\"%%s\",\"%s\")", k / NU, vis(U[k % NU])); return; }
   snprintf(buf, cap, "%s", miscname[op - base_misc()]);
 }
 
@@ -841,6 +851,11 @@ static void ladder_one(int N, int P, int op) {
   vf_set_cur("ladder N=%d P=%d op=%d | %s with a payload of %d characters, prefix of %d", N, P, op, l_opname, N, P);
   for (int i = 0; i < P; i++) l_prefix[i] = (char)('A' + (i * 5 + i / 26) % 26);
   l_prefix[P] = 0;
+  if (hifill) {
+    /* high bytes: UTF-8 two- and three-byte sequences, lone continuation bytes, 0xFF, a few letters; N counts BYTES */
+    static const unsigned char hb[] = { 0xC3, 0xAF, 'n', 0xE2, 0x82, 0xAC, 0x80, 0xBF, 0xFF, 'a', 0xC3, 0xA9, 0xFE, 0x81, 'z', 0xF0, 0x9F, 0x98, 0x80 };
+    for (int i = 0; i < N; i++) l_payload[i] = (char)hb[(i + i / 19 * 7) % (int)sizeof hb];
+  } else
   for (int i = 0; i < N; i++) l_payload[i] = (char)('a' + (i * 7 + i / 26 + i / 676) % 26);
   l_payload[N] = 0;
   volatile int ret = -12345;
@@ -1177,6 +1192,16 @@ int main(int argc, char** argv) {
   R = roots;
 
   A = (int)vf_param_i("alpha", 2);
+  {
+    /* bytes=c3af: the alphabet is the bytes 0xC3 0xAF (contents then include the UTF-8 sequence C3 AF and its halves) */
+    const char* hx = vf_param("bytes", NULL);
+    if (hx) {
+      int n = 0;
+      while (hx[0] && hx[1] && n < 4) { unsigned v = 0; sscanf(hx, "%2x", &v); if (v) ALPHA[n++] = (unsigned char)v; hx += 2; }
+      if (n) A = n;
+    }
+    hifill = vf_param_is("filler", "hi", "ascii");
+  }
   L = (int)vf_param_i("maxlen", 5);
   UL = (int)vf_param_i("ulen", 2);
   if (A < 1) A = 1; if (A > 4) A = 4;
@@ -1205,7 +1230,7 @@ int main(int argc, char** argv) {
   }
 
   static char dname[96];
-  snprintf(dname, sizeof dname, "string[alpha=%d,maxlen=%d,ulen=%d,%s%s%s]", A, L, UL, prop, hashop ? ",hashop" : "", pct ? ",pct" : "");
+  snprintf(dname, sizeof dname, "string[alpha=%d%s%s,maxlen=%d,ulen=%d,%s%s%s]", A, vf_param("bytes", NULL) ? ",bytes=" : "", vf_param("bytes", ""), L, UL, prop, hashop ? ",hashop" : "", pct ? ",pct" : "");
   struct vf_domain d = { dname, nops_total(), reset, cleanup, apply, check, canon, opname, nontrivial,
                          (size_t)vf_param_i("depth", 0), (size_t)vf_param_i("max_states", 0) };
 
